@@ -51,15 +51,66 @@ def contract_touches(C, prop):
     return False
 
 
-def _verify_one(args):
-    qn, tier, seed = args
+_V = {}
+
+
+def _verify_job(args):
+    qn, prefixes, budget, tier, seed = args
+    if os.environ.get('H2VC_DEBUG_HANG'):
+        import faulthandler
+        faulthandler.dump_traceback_later(int(os.environ['H2VC_DEBUG_HANG']), exit=True)
     try:
-        load_contracts()
-        V = prove.Verifier(tier=tier, seed=seed)
-        rep = V.verify(qn)
-        return qn, rep, None
+        if 'v' not in _V:
+            load_contracts()
+            _V['v'] = prove.Verifier(tier=tier, seed=seed)
+        rep, left = _V['v'].verify_partial(qn, prefixes, budget)
+        return qn, rep, left, None
     except Exception:
-        return qn, None, traceback.format_exc()
+        return qn, None, [], traceback.format_exc()
+    finally:
+        if os.environ.get('H2VC_DEBUG_HANG'):
+            faulthandler.cancel_dump_traceback_later()
+
+
+def run_all(targets, tier, seed, serial=False, nproc=16):
+    """Work queue over (function, subtree-prefix) jobs on a process pool."""
+    reports, crashes = {}, []
+    jobs = [(qn, [[]], 24, tier, seed) for qn in targets]
+    import concurrent.futures as cf
+    pool = None if serial else cf.ProcessPoolExecutor(max_workers=nproc, mp_context=mp.get_context('fork'))
+    rounds = 0
+    try:
+        while jobs:
+            rounds += 1
+            if serial:
+                results = [_verify_job(j) for j in jobs]
+            else:
+                futs = [(j, pool.submit(_verify_job, j)) for j in jobs]
+                results = []
+                for j, f in futs:
+                    try:
+                        results.append(f.result(timeout=3000))
+                    except Exception as e:      # worker died / timed out: checker error, never a verdict
+                        results.append((j[0], None, [], 'worker failure: %r' % (e,)))
+            jobs = []
+            for qn, rep, left, err in results:
+                if err:
+                    crashes.append((qn, err))
+                    continue
+                if qn in reports:
+                    prove.merge_reports(reports[qn], rep)
+                else:
+                    reports[qn] = rep
+                # one job per unexplored prefix: dynamic load balancing
+                budget = 40 if rounds < 3 else 250
+                # group the unexplored prefixes into at most 2*nproc jobs per function
+                per = max(1, (len(left) + 2 * nproc - 1) // (2 * nproc))
+                for i in range(0, len(left), per):
+                    jobs.append((qn, left[i:i + per], budget * per, tier, seed))
+    finally:
+        if pool is not None:
+            pool.shutdown(wait=False, cancel_futures=True)
+    return reports, crashes
 
 
 def load_known_findings():
@@ -106,20 +157,7 @@ def cmd_prove(a):
     if not targets:
         print('CHECKER-ERROR property=%s no contracts registered' % prop)
         return 3
-    jobs = [(qn, tier, seed) for qn in targets]
-    nproc = min(16, len(jobs))
-    if nproc > 1 and not a.serial:
-        with mp.get_context('fork').Pool(nproc) as pool:
-            results = pool.map(_verify_one, jobs, chunksize=1)
-    else:
-        results = [_verify_one(j) for j in jobs]
-
-    reports, crashes = {}, []
-    for qn, rep, err in results:
-        if err:
-            crashes.append((qn, err))
-        else:
-            reports[qn] = rep
+    reports, crashes = run_all(targets, tier, seed, serial=a.serial)
 
     known = load_known_findings()
     obligations, refuted, unknown, known_hits = [], [], [], []
